@@ -17,6 +17,8 @@ func c16emptytype(c *core.Ctx) {
 	const R = "C16.emptytype"
 	c.Rule(R, "every call of ISchema.AddNamedType in the public API is dominated by a test that the schema being registered has a root node (`X.RootNode() == nil` => return an error) or is tabled with the reason it cannot be empty. The checker, the compiler and the example builder call RootNode() of registered types and use the result without a nil test (a dozen sites); under the type checker's recover a nil dereference there is turned into the internal `Runtime Failure` code instead of a diagnostic")
 	c.Floor(R, 2)
+	c.Rule("C16.typefile", "ISchema.AddNamedType(name, X.Inner, F, 0) in the public API passes F = X.File: the model of a schema object is registered together with that object's own text, because the type checker re-bases an error found inside the type onto the registered file (checkType: SetFile(typ.RootFile), index + typ.Begin)")
+	c.Floor("C16.typefile", 1)
 	n := 0
 	for _, cs := range c.P.Calls() {
 		if core.FullName(core.Callee(cs.Pkg, cs.Call)) != "(*notations/jschema/ischema.ISchema).AddNamedType" || len(cs.Call.Args) < 2 {
@@ -39,6 +41,16 @@ func c16emptytype(c *core.Ctx) {
 			}
 			if core.ExprStr(be.X) == arg+".RootNode()" && core.ExprStr(be.Y) == "nil" && ((be.Op == token.EQL && !f.Truth) || (be.Op == token.NEQ && f.Truth)) {
 				guarded = true
+			}
+		}
+		// the file registered with the model must be the file of the same schema object
+		if strings.HasSuffix(arg, ".Inner") && len(cs.Call.Args) >= 3 {
+			base := strings.TrimSuffix(arg, ".Inner")
+			fileArg := core.ExprStr(cs.Call.Args[2])
+			if r, ok := emptyTypeTable[key]; ok && fileArg != base+".File" {
+				c.Tabled("C16.typefile", key, pos, "file registered with "+arg+": "+fileArg, "generated schema text of a regex type (FromRSchema): "+r)
+			} else {
+				c.Check(fileArg == base+".File", "C16.typefile", key, pos, "the model "+arg+" is registered with its own file ("+fileArg+")", "the type's model is registered with another schema's file: errors found inside the type carry an index into the type's text but are resolved (line, column, quoted line) against that other text")
 			}
 		}
 		switch {
